@@ -14,6 +14,10 @@
 // You should have received a copy of the GNU General Public License
 // along with this program. If not, see <http://www.gnu.org/licenses/>.
 
+#if defined(BXDECAY0_VERIF) && defined(__SANITIZE_ADDRESS__)
+#include <sanitizer/asan_interface.h>
+#endif
+
 // Ourselves:
 #include <bxdecay0/bb.h>
 
@@ -40,10 +44,6 @@
 #include <bxdecay0/i_random.h>
 #include <bxdecay0/tgold.h>
 #include <bxdecay0/utils.h>
-
-#if defined(BXDECAY0_VERIF) && defined(__SANITIZE_ADDRESS__)
-#include <sanitizer/asan_interface.h>
-#endif
 
 namespace bxdecay0 {
 
